@@ -340,6 +340,7 @@ package server
 
 //@ unit (*Dataset).GetChangesWatermark
 //@   prop C18
+//@   modifies none
 //@   ghost txnG int
 //@   requires ds != nil && ds.store != nil
 //@   ensures [empty-log-is-zero] ret1 == nil && (forall i int :: 0 <= i && i < N(txnG) ==> !isChange(K(txnG, i), ds.InternalID)) ==> ret0 == 0
@@ -1603,6 +1604,7 @@ package server
 //@     assert [C14:object-decoded-from-the-bytes-read] $arg0 == data
 //@ unit (*Store).DeleteObject
 //@   prop C14
+//@   modifies $recordsDeleted
 //@   requires-inv [the-store-exists] s != nil
 //@   safe slice
 //@   at call deleteValue#1 before
